@@ -21,7 +21,8 @@ limitation rather than guessing.
 """
 import ast
 
-from .consteval import EnumMember, UNKNOWN, const_eval, fold_test
+from .consteval import (EnumMember, FuncRef, UNKNOWN, const_eval,
+                        fold_test)
 from .index import unparse
 from . import query as Q
 
@@ -54,6 +55,11 @@ class Interp:
         """Interpret a call of a repository function; returns its value or
         UNKNOWN."""
         callee = self.flow.resolve_call(call, fn)
+        if callee is None and not isinstance(call.func, ast.Name):
+            # a function selected from a dispatch table
+            fv = self.value(fn.module, call.func, env)
+            if isinstance(fv, FuncRef):
+                callee = fv.func
         if callee is None or depth >= self.max_depth:
             return UNKNOWN, False
         a_ = callee.node.args
